@@ -138,6 +138,17 @@ class MultivariateNormalPrior(Prior, MultivariateNormal):
         _bufferize_attributes(self, ("loc", "_unbroadcasted_scale_tril"))
         self._transform = transform
 
+    def _load_from_state_dict(self, *args, **kwargs):
+        """Loads `loc` / `_unbroadcasted_scale_tril` and resets all lazy properties (they were derived from the old ones)"""
+        super()._load_from_state_dict(*args, **kwargs)
+        _del_attributes(self, MVN_LAZY_PROPERTIES)
+
+    def _apply(self, fn, *args, **kwargs):
+        """Applies the module-level dtype / device move and resets all lazy properties"""
+        module = super()._apply(fn, *args, **kwargs)
+        _del_attributes(module, MVN_LAZY_PROPERTIES)
+        return module
+
     def cuda(self, device=None):
         """Applies module-level cuda() call and resets all lazy properties"""
         module = self._apply(lambda t: t.cuda(device))
